@@ -299,3 +299,50 @@ def check(P: Project, R: Report) -> None:
             if isinstance(n, ast.Dict) and any(isinstance(k, ast.Constant) and k.value == "result" for k in n.keys) and any(isinstance(k, ast.Constant) and k.value == "jsonrpc" for k in n.keys):
                 fabricated.append(f"{f.qual}:{n.lineno} dict with result")
     R.ob("R5", "the stdio transport builds no success response", not fabricated, rel, f"{fabricated}")
+
+    # ------------------------------------------------------------------ R8: the group's tasks stay cancellable
+    R.rule("R8", "the task-group exit is prompt only if its tasks can be cancelled: no task started in the client's task group — nor any method it calls — suspends inside a shielded cancel scope that has no constant deadline")
+    from ..roles import self_closure
+
+    entries = []
+    for c in walk_local(ae.node):
+        if isinstance(c, ast.Call) and call_name(c).endswith((".start_soon", ".start")) and c.args and call_name(c).split(".")[-2:-1] and ast.unparse(c.func.value) in tg_names:
+            a0 = c.args[0]
+            if isinstance(a0, ast.Attribute) and isinstance(a0.value, ast.Name) and a0.value.id == "self" and a0.attr in meths:
+                entries.append(meths[a0.attr])
+            else:
+                raise AnalysisError(f"{rel}:{c.lineno}: the task group starts `{ast.unparse(a0)[:50]}`, which is not a method of the client")
+    R.need(len(entries) >= 2, f"anchor: expected the reader and the writer to be started in the task group, found {[e.name for e in entries]}")
+    task_fns = {}
+    for e in entries:
+        task_fns.update(self_closure(P, cl, e))
+    n_sh = 0
+    for name, f in sorted(task_fns.items()):
+        R.fn(f.fq)
+        for w in walk_local(f.node):
+            if not isinstance(w, (ast.With, ast.AsyncWith)):
+                continue
+            d = _shield_of(w)
+            if d is None:
+                continue
+            n_sh += 1
+            suspends = any(isinstance(x, (ast.Await, ast.AsyncFor, ast.AsyncWith)) for b in w.body for x in walk_local(b)) or any(isinstance(b, (ast.AsyncFor, ast.AsyncWith)) for b in w.body)
+            v = None if d == "none" else try_fold(P, f.module, ast.parse(d, mode="eval").body)
+            finite = isinstance(v, (int, float)) and not isinstance(v, bool) and v < float("inf")
+            R.ob("R8", f"{f.qual}: a shielded scope in a task of the group does not suspend without a deadline", (not suspends) or finite, f"{f.module.rel}:{w.lineno}",
+                 f"`{ast.unparse(w.items[0].context_expr)[:60]}` shields awaits in a task of the client's task group (deadline {d}): if one of them blocks (a full stream, a child that stopped reading) the cancellation done by __aexit__ cannot interrupt it, the task-group exit never returns and the kill ladder is never reached")
+    n_h = 0
+    for name, f in sorted(task_fns.items()):
+        for n in walk_local(f.node):
+            if isinstance(n, ast.Assign) and any(isinstance(t, ast.Attribute) and t.attr == "shield" for t in n.targets) and not (isinstance(n.value, ast.Constant) and n.value.value is False):
+                R.ob("R8", f"{f.qual}: no cancel scope of a task is switched to shielded", False, f"{f.module.rel}:{n.lineno}", f"`{ast.unparse(n)[:60]}` shields what the task awaits next from the cancellation done by __aexit__")
+            if isinstance(n, ast.ExceptHandler):
+                n_h += 1
+                caught = "<bare>" if n.type is None else ast.unparse(n.type)
+                absorbs = n.type is None or any(k in caught for k in ("BaseException", "CancelledError", "get_cancelled_exc_class"))
+                reraises = bool(n.body) and isinstance(n.body[-1], ast.Raise) and n.body[-1].exc is None
+                R.ob("R8", f"{f.qual}: `except {caught[:40]}` does not absorb the cancellation", (not absorbs) or reraises, f"{f.module.rel}:{n.lineno}",
+                     "the handler catches the cancellation delivered by __aexit__ and does not re-raise it: the task carries on (its loop waits again) and the task-group exit does not return")
+    R.extra["task_group_handlers"] = n_h
+    R.ob("R8", "the tasks of the client's task group can be cancelled at every suspension", True, ae.where, "", sample=f"R8 {sorted(task_fns)}: {n_sh} shielded scope(s), none suspends without a deadline")
+    R.extra["task_group_functions"] = sorted(task_fns)
